@@ -81,6 +81,18 @@ Fixpoint update {A} (l : list A) (i : nat) (a : A) : option (list A) :=
   | b :: r, S j => match update r j a with Some r' => Some (b :: r') | None => None end
   end.
 
+(* opobject: the n pairs on top of the stack (the last value on top), returned in source order.  Only JSON values
+   are expected there (anything else is reported as Stuck: the compiled code never leaves another kind of item
+   below a value of an entry) *)
+Fixpoint take_pairs (n : nat) (s : list sv) (acc : list (jv * jv)) : option (list (jv * jv) * list sv) :=
+  match n with
+  | O => Some (acc, s)
+  | S m => match s with
+           | SV v :: SV k :: r => take_pairs m r ((k, v) :: acc)
+           | _ => None
+           end
+  end.
+
 Section VM.
 Variable nt : natives.
 Variable code : list instr.
@@ -221,6 +233,24 @@ Definition step (s : state) : outcome :=
                 | SLbl n :: _ => brk (Some (VE (EB n))) m
                 | _ => Stuck
                 end
+            | NIndex2 =>          (* _index: fn(x, [v, k]) = funcIndex2(x, v, k) *)
+                match stk m with
+                | SV x :: SV a0 :: SV a1 :: r =>
+                    match n_index nt a0 a1 with
+                    | inl w => cont (set_stk m (SV w :: r))
+                    | inr x => brk (Some (VE (err_of x))) m
+                    end
+                | _ => Stuck
+                end
+            | NSlice3 =>          (* _slice: fn(x, [v, e, s]) = funcSlice(x, v, e, s) *)
+                match stk m with
+                | SV x :: SV a0 :: SV a1 :: SV a2 :: r =>
+                    match n_slice nt a0 a1 a2 with
+                    | inl w => cont (set_stk m (SV w :: r))
+                    | inr x => brk (Some (VE (err_of x))) m
+                    end
+                | _ => Stuck
+                end
             end
         | Ipushpc p => cont (set_stk m (SPc p (scopes m) :: stk m))
         | Icallpc =>
@@ -287,6 +317,30 @@ Definition step (s : state) : outcome :=
             (* opcallrec: pc, callpc, index = v, -1, env.scopes.index ; goto loop (no backtrack test) *)
             Next (Run p bt e {| stk := stk m; scopes := scopes m; forks := forks m; vars := vars m; lbl := lbl m;
                                 offset := offset m; gxs := {| ctr := ctr (gxs m); creg := (None, scopes m) |} |})
+        | Iindexarray i =>
+            if bt then brk e m else
+            match stk m with
+            | SV v :: r =>
+                match v with
+                | VNull | VArr _ =>
+                    match n_index nt v (VNum (Z.of_nat i)) with
+                    | inl w => cont (set_stk m (SV w :: r))
+                    | inr x => brk (Some (VE (err_of x))) m
+                    end
+                | _ => brk (Some (VE (EM []))) m        (* expectedArrayError *)
+                end
+            | _ => Stuck
+            end
+        | Iobject n =>
+            if bt then brk e m else
+            match take_pairs n (stk m) [] with
+            | Some (ps, r) =>
+                match mk_obj ps with
+                | inl w => cont (set_stk m (SV w :: r))
+                | inr x => brk (Some (VE (err_of x))) m
+                end
+            | None => Stuck
+            end
         | Iiter =>
             match e with
             | Some _ => brk e m
